@@ -174,3 +174,41 @@ pub fn braid_moves(strands: usize, w: &[i32], max_len: usize) -> Vec<(String, us
     out.retain(|(_, s, v)| braid_closure(*s, v).is_some());
     out
 }
+
+// ---- presentations of one and the same diagram ------------------------------------------------------
+
+/// Different PD codes of the SAME diagram: every relabeling of the edges x every listing order of the
+/// crossings (all n! for n <= 3; identity, reversal and one rotation beyond).  Unlike
+/// `Diagram::reorder` + `pd()`, the labels stay attached to the edges, so that e.g. the first listed
+/// crossing need not carry the smallest label (the library's base point for the reduced theory is
+/// "smallest label of the first crossing").  The first entry is the canonical code itself.
+pub fn code_variants(d: &Diagram, thin: bool) -> Vec<(String, Vec<[usize; 4]>)> {
+    let n = d.n;
+    let orders: Vec<Vec<usize>> = if n <= 3 && !thin {
+        vcore::reflink::all_permutations(n)
+    } else if n >= 2 {
+        vec![(0..n).collect(), (0..n).rev().collect(), (0..n).map(|i| (i + 1) % n).collect()]
+    } else {
+        vec![(0..n).collect()]
+    };
+    let mut out = vec![];
+    for (ln, lf) in relabelings(2 * n) {
+        if thin && !["one-based", "reversed", "shuffled"].contains(&ln) {
+            continue;
+        }
+        let code = d.pd_with(&|k| lf(k));
+        for o in &orders {
+            out.push((format!("{ln}/order{o:?}").replace(' ', ""), o.iter().map(|&c| code[c]).collect()));
+        }
+    }
+    out
+}
+
+/// the reference diagram of a PD code together with the edge id of the library's base point
+/// (smallest label of the first listed crossing)
+pub fn parse_with_base(code: &[[usize; 4]]) -> Option<(Diagram, usize)> {
+    let (d, labels) = Diagram::from_pd(code)?;
+    let min_label = *code.first()?.iter().min()?;
+    let base = labels.iter().position(|&l| l == min_label)?;
+    Some((d, base))
+}
